@@ -182,14 +182,20 @@ def h_cu_lookup(ctx):
 
 
 UNITS3 = [(4, False, 3), (5, False, 1), (2, True, 6)]
+UNITS4 = [(3, False, 2), (4, True, 1), (5, False, 4), (4, False, 0)]
 
 
 def _lookup_instances(tier):
     out = []
     for little in (True, False):
-        for warm in ([], [2], [1, 0], [0, 1, 2]):
+        # every prior cache state: each ordered selection of units fetched by offset beforehand (sparse caches included)
+        warms = [[]] + [[a] for a in range(3)] + [[a, b] for a in range(3) for b in range(3) if a != b] + [[0, 1, 2], [2, 1, 0], [1, 2, 0]]
+        for warm in warms:
             out.append(dict(little=little, units=UNITS3, warm=warm, op='containing'))
-            out.append(dict(little=little, units=UNITS3, warm=warm, op='at'))
+            if len(warm) != 1 or tier == 'thorough':
+                out.append(dict(little=little, units=UNITS3, warm=warm, op='at'))
+        for warm in ([0, 3], [3, 0], [1, 3], [3], [0, 2], [3, 1, 0]):
+            out.append(dict(little=little, units=UNITS4, warm=warm, op='containing'))
     out.append(dict(little=True, units=[(4, False, 0)], warm=[], op='containing'))
     return out
 
